@@ -583,7 +583,7 @@ def sig_of(t, rec):
     cl = rec["clause"]
     if rec.get("kind") == "info":
         return None
-    if t["_inp"].get("tag") == "split3":
+    if t["_inp"].get("tag") == "split3" and cl in ("AC:Split", "Cambridge:Split", "Cambridge:TypeLaw"):
         return "%s:Split(fewer ballots than voter types)" % t["op"]
     if t["_inp"].get("tag") == "camorder":
         return "Cambridge:CohesionByDictOrder"
